@@ -10,3 +10,6 @@ import AGV.Props.C25
 #print axioms AGV.Props.C25.c25_single_ack
 #print axioms AGV.Props.C25.c25_nothing_after_close
 #print axioms AGV.Props.C25.c25_live
+#print axioms AGV.Props.C25.c25_live_poll
+#print axioms AGV.Props.C25.c25_complete_once_trace
+#print axioms AGV.Props.C25.c25_complete_once_run
